@@ -39,7 +39,8 @@ def _free_port():
     return p
 
 
-def make_config(base, chip, nfans, curve, api_port, stats_port, file_fans=1, never_stop=True, extras=False):
+def make_config(base, chip, nfans, curve, api_port, stats_port, file_fans=1, never_stop=True, extras=False,
+                pwm_map_override=False, default_algo=False):
     """like daemon.make_config, but: every fan (hwmon and file) uses the SAME curve c1, which reads the one
     sensor s1; file fans get an rpmPath so that they have an RPM monitor too; direct and pid control
     algorithms alternate."""
@@ -50,8 +51,14 @@ def make_config(base, chip, nfans, curve, api_port, stats_port, file_fans=1, nev
     for i in range(1, nfans + 1):
         algo = ["    controlAlgorithm: direct"] if i % 2 else ["    controlAlgorithm:", "      pid:", "        p: 0.3",
                                                                "        i: 0.02", "        d: 0.005"]
+        if default_algo and i >= 2:
+            algo = []   # the default control algorithm (like the file fans): one loop object PER FAN (seed C20h: one for all)
         lines += [f"  - id: f{i}", "    hwmon:", "      platform: fakechip", f"      rpmChannel: {i}",
                   f"    neverStop: {'true' if never_stop else 'false'}", "    curve: c1"] + algo
+        if i == nfans and pwm_map_override:
+            # a user-defined PWM map: the controller's map then IS the configuration's map object, which the REST api
+            # serves (seed C20g: the controller "sanitised" it in place while requests were reading it)
+            lines += ["    pwmMap:", "      0: 0", "      64: 64", "      128: 140", "      200: 210", "      255: 255"]
     for i in range(1, file_fans + 1):
         open(os.path.join(base, f"filefan{i}"), "w").write("90\n")
         open(os.path.join(base, f"filefan{i}_rpm"), "w").write("900\n")
@@ -348,6 +355,8 @@ def shared_curve_run(seed=0, tier="quick", data=None):
         # one sensor object under its monitor, control loops and scrapes while its input fails and recovers
         ops += [f"rc.sensor kind={k} readers={2 + (seed + i) % 3} rounds={max(2, rounds // (6 if k == 'cmd' else 2))}"
                 for i, k in enumerate(["file", "hwmon", "cmd"])]
+        # a fan with a configured PWM map through the real start-up while the real REST handlers encode it
+        ops += [f"rc.cfgmap rounds={4 if tier == 'quick' else 12}"]
         open(os.path.join(wd, "ops"), "w").write("\n".join(ops) + "\n")
         env = dict(os.environ, GORACE="halt_on_error=0 history_size=2", GOMAXPROCS="8")
         env.pop("DISPLAY", None)
@@ -386,7 +395,7 @@ def race_run(seed=0, seconds=8.0, tier="quick", data=None, keep=False, curve=Non
         api_port, stats_port = _free_port(), _free_port()
         extras = tier != "quick"
         cfg = make_config(base, chip, nfans, curve, api_port, stats_port, file_fans=file_fans, never_stop=(seed % 2 == 0),
-                          extras=extras)
+                          extras=extras, pwm_map_override=(seed % 3 != 2), default_algo=(seed % 2 == 1))
         if warm:
             d0 = daemon.Daemon(binary, base, cfg, jpath, extra_env={"GORACE": "halt_on_error=0 history_size=2", "GOMAXPROCS": "4"})
             try:
@@ -401,6 +410,7 @@ def race_run(seed=0, seconds=8.0, tier="quick", data=None, keep=False, curve=Non
         urls = [api + "/fan/", api + "/fan/f1/", api + "/fan/f2/", api + "/fan/ff1/", api + "/curve/", api + "/curve/c1/",
                 api + "/sensor/", api + "/sensor/s1/", f"http://127.0.0.1:{stats_port}/metrics",
                 f"http://127.0.0.1:{stats_port}/metrics"]
+        urls.append(api + f"/fan/f{nfans}/")
         if extras:
             urls += [api + "/fan/cf1/", api + "/sensor/s2/", api + "/sensor/s3/", api + "/curve/cx/"]
         stop = threading.Event()
